@@ -1366,7 +1366,47 @@ func (g *progGen) stmt(nest int) {
 		g.declare(varInfo{name, t, true})
 	case "const":
 		name := g.fresh("c")
-		switch g.n("constform", 0, 4) {
+		switch g.n("constform", 0, 6) {
+		case 5:
+			// implicit repetition of a spec with several names whose values have different kinds:
+			// every name repeats the expression (and so the kind) of its own column
+			g.feat("const-block-multi-name")
+			c1, c2, c3, c4, c5 := g.fresh("c"), g.fresh("c"), g.fresh("c"), g.fresh("c"), g.fresh("c")
+			switch g.n("cmn", 0, 2) {
+			case 0:
+				g.line("const (")
+				g.line("\t%s, %s = iota, \"v\"", name, c1)
+				g.line("\t%s, %s", c2, c3)
+				g.line("\t%s, %s", c4, c5)
+				g.line(")")
+				g.line("_ = %s + \"!\"", c5)
+				g.line("_ = %s + 1", c4)
+			case 1:
+				g.line("const (")
+				g.line("\t%s, %s, %s = 1.5, iota, 'x'", name, c1, c2)
+				g.line("\t%s, %s, %s", c3, c4, c5)
+				g.line(")")
+				g.line("_, _, _ = %s * 2, %s << 1, string(rune(%s))", c3, c4, c5)
+			default:
+				g.line("const (")
+				g.line("\t%s, %s uint8 = iota, iota + 10", name, c1)
+				g.line("\t%s, %s", c2, c3)
+				g.line("\t%s, %s = \"s\", true", c4, c5)
+				g.line(")")
+				g.line("_, _ = %s + %s, %s + \"t\"", c2, c3, c4)
+				g.line("_ = !%s", c5)
+			}
+		case 6:
+			// a typed constant shifted by a non-constant count keeps the constant's type
+			g.feat("typed-const-shift-nonconst")
+			sh := g.fresh("n")
+			g.line("var %s uint = %d", sh, g.n("shv", 0, 3))
+			typ := []string{"uint8", "int16", "uint32", "N"}[g.n("tcs", 0, 3)]
+			g.line("const %s %s = %d", name, typ, g.n("cv", 1, 9))
+			r1, r2 := g.fresh("x"), g.fresh("x")
+			g.line("%s := %s %s %s", r1, name, []string{"<<", ">>"}[g.n("shop", 0, 1)], sh)
+			g.line("%s := %s(%d) %s %s", r2, typ, g.n("cv", 1, 9), []string{"<<", ">>"}[g.n("shop", 0, 1)], sh)
+			g.line("_, _ = %s, %s", r1, r2)
 		case 3, 4:
 			// a block whose specs change between typed, untyped and implicit repetition: every
 			// implicit spec repeats the type and expression of the spec before it, nothing earlier
